@@ -14,7 +14,7 @@ MANIFEST_ENTRY = {
  "technique": "Coq finite proof by computation over regenerated dispatch tables + exhaustive type-matrix differential run (harness/src/bin/defer.rs vs extracted model) + direct oracle from the extracted spec"
 }
 TRUSTED = vplib.BASE_TRUSTED + [
-    "tools/sync/execmap.py, tools/sync/dispatch.py, tools/arms.json (arm bodies are named by the hash of their normalised text; an unknown body or defer_op shape raises)",
+    "tools/sync/execmap.py, tools/sync/dispatch.py, tools/arms.json: the catch-all `defer_op .. push_unit` shape and its argument order are recognised exactly (any other defer_op shape raises); every other arm is classified by the features read from its current body (calls defer_op? which look-up helpers? tests for / produces the unsupported-types code?), its name (exact body hash, else the arm of the same function with the same patterns, else `other`) only refines what the correspondence run compares",
     "coq/Spec/Defined.v: pinned by hand from the operand pairs the runtime lists (no type table in /repo/docs)",
     "coq/Model/OpDispatch.v: hand-written meaning of each named arm body (tied by the matrix correspondence over representative values)",
     "harness hosts: SimpleGarnishData::set_op_handler with auxiliary data; BasicGarnishData with a recording BasicDataCompanion; the accepting host pushes exactly one register (the documented contract)",
@@ -143,9 +143,15 @@ def run(tier, seed):
         "one-operand operations report (Unit, 0) as their right operand (EmptyApply: the unit value it applies)",
         "operands are pushed in source order, left then right (what the builder emits; MakePair, which is total, is the one exception)",
     ]
-    sy = vplib.sync(["instr", "execmap", "dispatch"])
+    sy = vplib.sync(["instr", "execmap", "truth", "dispatch", "dispatch_strict"])
     for k, e in sy["errors"].items():
         v.tie_failure("translator %s: %s" % (k, e))
+    try:
+        from sync import dispatch as _d
+        for n in _d.NOTES:
+            v.notes.append("translator: " + n)
+    except Exception:
+        pass
     changed_fp = []
     try:
         from sync import dispatch
